@@ -7,6 +7,8 @@ use crate::grammar;
 use crate::json::J;
 
 pub mod c01;
+pub mod refcheck;
+pub mod refprops;
 
 #[derive(Clone, Copy, PartialEq, Eq, Debug)]
 pub enum Tier {
@@ -62,6 +64,11 @@ pub trait Monitor {
 pub fn monitor(id: &str) -> Option<Box<dyn Monitor>> {
     Some(match id {
         "C01" => Box::new(c01::C01),
+        "C02" => Box::new(refprops::C02),
+        "C03" => Box::new(refprops::C03),
+        "C11" => Box::new(refprops::C11),
+        "C12" => Box::new(refprops::C12),
+        "C19" => Box::new(refprops::C19),
         _ => return None,
     })
 }
